@@ -50,20 +50,43 @@ def def_msg(draw):
 
 
 @st.composite
+def one_child(draw, k, n):
+    ca = {"name": n}
+    if k == "BLOB":
+        payload = draw(st.sampled_from([b"", b"", b"abc", b"\x00\xff\x10", b"0123456789" * 3]))
+        fmt = draw(st.sampled_from([".bin", ".fits", "", ".bin", ".fits", ".fits.z"]))
+        # the declared size: normally the payload length; for a compressed format the length of the uncompressed
+        # data (anything); occasionally inconsistent or not an integer (truncated transfer, sloppy server)
+        size = str(len(payload))
+        if fmt.endswith(".z"):
+            size = draw(st.sampled_from([size, "2880", "100"]))
+        elif draw(st.integers(0, 5)) == 0:
+            size = draw(st.sampled_from([str(len(payload) + 7), "12.0", "-1"]))
+        ca.update({"size": size, "format": fmt})
+        text = base64.b64encode(payload).decode() or None
+    else:
+        text = draw(value_by_kind[k])
+    return {"kind": f"one{k}", "attrs": ca, "text": text}
+
+
+@st.composite
 def set_msg(draw):
     k = draw(st.sampled_from(KINDS))
     attrs = {"device": draw(st.sampled_from(DEVS)), "name": draw(st.sampled_from(PROPS)), "state": draw(st.sampled_from(gen.STATES))}
     names = draw(st.lists(st.sampled_from(ELEMS), unique=True, min_size=0, max_size=3))
-    children = []
-    for n in names:
-        ca = {"name": n}
-        if k == "BLOB":
-            payload = draw(st.sampled_from([b"", b"", b"abc", b"\x00\xff\x10", b"0123456789" * 3]))
-            ca.update({"size": str(len(payload)), "format": draw(st.sampled_from([".bin", ".fits", ""]))})
-            text = base64.b64encode(payload).decode() or None
-        else:
-            text = draw(value_by_kind[k])
-        children.append({"kind": f"one{k}", "attrs": ca, "text": text})
+    children = [draw(one_child(k, n)) for n in names]
+    return {"kind": f"set{k}Vector", "attrs": attrs, "text": None, "children": children}
+
+
+@st.composite
+def set_for(draw, def_spec):
+    """An update aimed at an earlier definition: same device, property and kind, a subset of its elements (sometimes
+    plus one it does not have)."""
+    k = def_spec["kind"][3:-6]
+    attrs = {"device": def_spec["attrs"]["device"], "name": def_spec["attrs"]["name"], "state": draw(st.sampled_from(gen.STATES))}
+    have = [c["attrs"]["name"] for c in def_spec["children"]]
+    names = draw(st.lists(st.sampled_from(have + ["w"]), unique=True, min_size=0, max_size=3)) if have else draw(st.lists(st.just("w"), max_size=1))
+    children = [draw(one_child(k, n)) for n in names]
     return {"kind": f"set{k}Vector", "attrs": attrs, "text": None, "children": children}
 
 
@@ -100,6 +123,14 @@ def stream(draw, max_len=40):
     for src, gap in draw(st.lists(st.tuples(st.integers(0, 1000), st.integers(0, 6)), max_size=4)):
         s_ = src % len(items)
         items.insert(min(len(items), s_ + 1 + gap), copy.deepcopy(items[s_]))
+    # updates aimed at definitions of the stream (drawn independently, updates rarely hit a property of their own kind)
+    for src, gap in draw(st.lists(st.tuples(st.integers(0, 1000), st.integers(0, 4)), max_size=5)):
+        defs = [i for i, it in enumerate(items) if it["spec"]["kind"].startswith("def")]
+        if not defs:
+            break
+        di = defs[src % len(defs)]
+        aimed = {"spec": draw(set_for(items[di]["spec"])), "choices": draw(st.none() | gen.choices)}
+        items.insert(min(len(items), di + 1 + gap), aimed)
     return items
 
 
